@@ -329,7 +329,7 @@ func firstIfUser(v ssa.Value) (*ssa.If, bool) {
 // R-REGTYPE
 
 var regTypeTabled = map[string]string{
-	"errbase.decodeErrno -> *errbase.OpaqueErrno":       "an errno from another platform cannot be a native syscall.Errno: OpaqueErrno by design (it has its own encoder)",
+	"errbase.decodeErrno -> *errbase.OpaqueErrno":        "an errno from another platform cannot be a native syscall.Errno: OpaqueErrno by design (it has its own encoder)",
 	"barriers.decodeBarrierPrev -> *barriers.barrierErr": "legacy upgrade: errors encoded by old versions as barrierError are rebuilt as the current barrierErr",
 }
 
